@@ -19,12 +19,12 @@ def regex_literals():
 
 def gen_regex_tables(workdir):
     """regex_tables.c generated from the literals in the real source (every run)"""
-    items = []
+    items = []; pats = {}
     for cname, path, var in regex_literals():
         pat = re2smt.extract(path, var)
-        items.append((cname, re2smt.parse(pat)))
+        items.append((cname, re2smt.parse(pat))); pats[cname] = pat
     p = os.path.join(workdir, 'regex_tables.c')
-    open(p, 'w').write(re2smt.emit_c(items))
+    open(p, 'w').write(re2smt.emit_c(items, pats))
     return [p]
 
 TS_OVERRIDES = ['_ZN13opentelemetry2v15trace10TraceState15IsValidKeyRegExENS0_5nostd11string_viewE',
